@@ -31,7 +31,7 @@ func (app *Application) InitChain(ctx *api.Context, _ types.RequestInitChain, do
 	if err := app.doInitBackend(params); err != nil {
 		return fmt.Errorf("beacon: failed to initialize backend: %w", err)
 	}
-	if err := app.backend.OnInitChain(ctx, state, params, doc); err != nil {
+	if err := app.getBackend().OnInitChain(ctx, state, params, doc); err != nil {
 		return fmt.Errorf("beacon: failed to handle per-backend initialization: %w", err)
 	}
 
@@ -39,6 +39,9 @@ func (app *Application) InitChain(ctx *api.Context, _ types.RequestInitChain, do
 }
 
 func (app *Application) doInitBackend(params *beacon.ConsensusParameters) error {
+	app.backendLock.Lock()
+	defer app.backendLock.Unlock()
+
 	if app.backend != nil {
 		return nil
 	}
